@@ -406,6 +406,85 @@ pub fn queries(tier: Tier) -> Vec<GenQuery> {
     out
 }
 
+/// E-func: every scalar function the SQL front-end names, applied to columns of several kinds and, for the binary
+/// ones, to a grid of constants; `positions`: 1 = in the select list only, 3 = also inside WHERE and inside an aggregate
+/// `safe`: only the applications that are defined for every argument in PostgreSQL and SQLite alike (no division by a
+/// possibly-zero value, no logarithm / root / fractional power of a possibly non-positive value ...): SQLite answers
+/// NULL where PostgreSQL raises an error, so the others can be compiled (C18) but not compared by execution
+pub fn function_sweep(positions: usize, safe: bool) -> Vec<GenQuery> {
+    let mut out = vec![];
+    let unary_num = ["exp", "ln", "log", "log2", "log10", "abs", "sin", "cos", "tan", "sqrt", "square", "sign", "degrees", "round", "trunc", "-", "ceil", "floor"];
+    let unary_txt = ["md5", "lower", "upper", "char_length", "ltrim", "rtrim", "btrim"];
+    let binary_num = ["pow", "power", "round", "trunc", "greatest", "least", "log", "coalesce", "+", "-", "*", "/", "%"];
+    let consts = ["0", "0.5", "2", "-1", "1.5", "3"];
+    // (table, numeric arguments, text arguments)
+    let subjects: [(&'static str, &[&str], &[&str]); 2] = [("users", &["age", "id", "age - 19", "id - 2.5"], &["city"]), ("orders", &["amount", "amount - 5", "user_id"], &[])];
+    let mut exprs: Vec<(&'static str, String)> = vec![];
+    for (t, nums, txts) in subjects.iter() {
+        for a in nums.iter() {
+            for f in unary_num {
+                exprs.push((*t, if f == "-" { format!("-({a})") } else { format!("{f}({a})") }));
+            }
+            for f in binary_num {
+                for c in consts {
+                    match f {
+                        "+" | "-" | "*" | "/" | "%" => {
+                            exprs.push((*t, format!("({a}) {f} {c}")));
+                            exprs.push((*t, format!("{c} {f} ({a})")));
+                        }
+                        _ => {
+                            exprs.push((*t, format!("{f}({a}, {c})")));
+                            if matches!(f, "pow" | "power" | "greatest" | "least" | "log") {
+                                exprs.push((*t, format!("{f}({c}, {a})")));
+                            }
+                        }
+                    }
+                }
+            }
+        }
+        for a in txts.iter() {
+            for f in unary_txt {
+                exprs.push((*t, format!("{f}({a})")));
+            }
+            exprs.push((*t, format!("substr({a}, 1, 1)")));
+            exprs.push((*t, format!("concat({a}, 'x')")));
+            exprs.push((*t, format!("coalesce({a}, 'z')")));
+        }
+    }
+    let is_safe = |e: &str| -> bool {
+        let f = e.split('(').next().unwrap_or("");
+        match f {
+            "exp" | "abs" | "sin" | "cos" | "square" | "sign" | "degrees" | "round" | "trunc" | "ceil" | "floor" | "-" | "greatest" | "least" | "coalesce" | "lower" | "upper" | "char_length" | "md5" => !e.contains(", -1)") || f != "round" && f != "trunc",
+            "pow" | "power" => e.ends_with(", 2)") || e.ends_with(", 3)") || e.ends_with(", 0)"),
+            "" => {
+                // infix: (a) op c  or  c op (a)
+                (e.contains(") + ") || e.contains(") - ") || e.contains(") * ") || e.contains(" + (") || e.contains(" - (") || e.contains(" * (")) || (e.contains(") / ") && !e.ends_with("/ 0"))
+            }
+            _ => false,
+        }
+    };
+    for (t, e) in exprs {
+        if safe && !is_safe(&e) {
+            continue;
+        }
+        let mut g = q(format!("SELECT {e} AS x FROM {t}"), if t == "users" { &["users"] } else { &["orders"] }, &["function-sweep", "projection"]);
+        g.max_total_rows = 2;
+        out.push(g);
+        if positions >= 3 {
+            let text_valued = e.starts_with("md5") || e.starts_with("lower") || e.starts_with("upper") || e.starts_with("ltrim") || e.starts_with("rtrim") || e.starts_with("btrim") || e.starts_with("substr") || e.starts_with("concat") || e.starts_with("coalesce(city");
+            if !text_valued {
+                let mut g = q(format!("SELECT id FROM {t} WHERE {e} > 1"), if t == "users" { &["users"] } else { &["orders"] }, &["function-sweep", "filter"]);
+                g.max_total_rows = 2;
+                out.push(g);
+                let mut g = q(format!("SELECT sum({e}) AS s, count(*) AS c FROM {t}"), if t == "users" { &["users"] } else { &["orders"] }, &["function-sweep", "aggregate", "ungrouped"]);
+                g.max_total_rows = 2;
+                out.push(g);
+            }
+        }
+    }
+    out
+}
+
 /// the composed queries of sqlgen2 (every constructor term of nesting depth <= depth)
 pub fn composed(depth: usize) -> Vec<GenQuery> {
     crate::sqlgen2::compose(depth).iter().map(crate::sqlgen2::to_gen).collect()
@@ -428,6 +507,11 @@ pub fn queries_plus_depth(tier: Tier, depth: usize) -> Vec<GenQuery> {
             g.tags.push("quick-depth-3");
             g
         }));
+    }
+    for g in function_sweep(tier.pick(1, 3), true) {
+        if seen.insert(g.sql.clone()) {
+            v.push(g);
+        }
     }
     for mut g in terms {
         if seen.insert(g.sql.clone()) {
